@@ -449,6 +449,11 @@ func witnesses() []genInput {
 		// `&` inside :not() under a list, lowered for a target without :is()
 		{ID: "witness-1", Items: []Item{
 			{K: "rule", Path: []PathEl{selEl(".a,.b"), selEl(":not(&) .c")}, Decls: color("red")}}},
+		// `&` inside :not() under a parent with a combinator, lowered for a target without complex :not(),
+		// next to a rule whose lowered form such browsers do understand
+		{ID: "witness-3", Items: []Item{
+			{K: "rule", Path: []PathEl{selEl("p"), selEl(":not(&) .c")}, Decls: color("blue")},
+			{K: "rule", Path: []PathEl{selEl("p+p"), selEl(":not(&) .c")}, Decls: color("red")}}},
 	}
 	// regression sheets of the defects this check found and that were fixed in /repo
 	one := func(p string, imp bool, vals ...string) Decl {
@@ -458,6 +463,10 @@ func witnesses() []genInput {
 		}
 		return Decl{P: p, V: vals, Sp: sp, I: imp}
 	}
+	// an inset shorthand with a max() value, lowered for a target without inset; the !important longhand makes the
+	// input's winner differ from the lowered `left` wherever the input is understood
+	w = append(w, genInput{ID: "witness-4", Items: []Item{
+		{K: "rule", Path: []PathEl{selEl(".c")}, Decls: []Decl{one("top", false, "mix"), one("left", true, "min12"), one("inset", false, "max12", "l1", "l2", "pct")}}}})
 	w = append(w,
 		// `&` inside a pseudo-class under a parent with a combinator (6bb4c85)
 		genInput{ID: "regress-0", Items: []Item{
